@@ -88,6 +88,17 @@ Theorem C19_sweep_subtraction_never_overflows : forall w : sweep,
 Proof. exact sweep_no_overflow_when_subtracting. Qed.
 Print Assumptions C19_sweep_subtraction_never_overflows.
 
+(* Sweep period 0: the unit never recalculates.  A sweep clock then neither switches channel 1 off
+   ([sweep_overflows] is false, so by C19_status_clock_exact only a length expiry can) nor changes the channel record
+   (frequency included) or the shadow register - for every state, whatever shift and direction are. *)
+Theorem C19_sweep_period0_inert : forall (c : square) (w : sweep),
+  swPeriod w = 0 ->
+  sweep_overflows w = false /\
+  fst (ch1_tick_sweep c w) = c /\
+  swShadow (snd (ch1_tick_sweep c w)) = swShadow w /\ swPeriod (snd (ch1_tick_sweep c w)) = 0.
+Proof. exact sweep_period0_inert. Qed.
+Print Assumptions C19_sweep_period0_inert.
+
 (* Frame sequencer: over ANY history of register writes other than NR52 (power is not switched) and machine
    cycles, from any well-formed state, the phase and the sequencer index are closed forms in the number of
    elapsed clocks n = 4 * cycles; one sequencer step per 8192 clocks. *)
